@@ -439,6 +439,19 @@ impl State {
         let all_obs = self.all_observers.borrow();
         if let Some(obs) = all_obs.get(&token.observer_id()) {
             obs.unsubscribe(token).unwrap();
+            return;
+        }
+        drop(all_obs);
+        // The observer may not be linked yet: observers created since the last stabilise are only
+        // in new_observers until the next stabilise adds them to all_observers.
+        let new_obs = self.new_observers.borrow();
+        for weak in new_obs.iter() {
+            if let Some(obs) = weak.upgrade() {
+                if obs.id() == token.observer_id() {
+                    obs.unsubscribe(token).unwrap();
+                    return;
+                }
+            }
         }
     }
 
